@@ -16,6 +16,9 @@ claimed={
  "C01":dict(text="Bounded symbolic model checking of writer->parser round trips: value-tree shapes are enumerated (<=3 free nodes + boundary shapes), and inside a shape every scalar kind (symbolic choice), every tag (symbolic uint16, pairwise distinct => all write orders and both table formats), every value (full width) and string contents are symbolic; read-back through typed accessors, field count, absence of any other tag, tag order and exact consumption are assertions discharged by z3. Table kernels push arbitrary sorted tables (all 16-bit tags x 32-bit offsets) through the real encode->decode->lookup.",
   design="§4 C01", technique="SSA symbolic execution + SMT (z3) over enumerated shapes with symbolic tags/kinds/values; native replay of models",
   note=NOTE_COMMON+" Shapes: root scalar (15 kinds); message/list with 0..2 (thorough 3) scalar children; nested message/list shapes; Any/Copy/Merge/Clone; 49 fields; 49/255/256 elements; depth 1/14/15; 64 KiB payload before a field; bytes/strings of length 0..2 elsewhere. Outside: larger trees, other payload lengths, user-supplied encoders."),
+ "C08":dict(text="Bounded symbolic model checking, differential: (a) the same symbolic write sequence on a fresh writer and on a writer with a history (completed / abandoned / failed program, then Reset) whose buffer is recycled memory with arbitrary symbolic stale bytes must give byte-identical output; (b) library bytes are compared byte for byte with a reference encoder written in the harness from the pinned layout (literal type codes, big-endian, reverse varints, zig-zag, NUL, sorted tables, big-form rule), shapes enumerated, tags/kinds/values symbolic, plus table kernels over all 16-bit tags x 32-bit offsets and size-class boundary payloads; the library must read reference bytes (incl. absent tags) identically.",
+  design="§4 C08", technique="SSA symbolic execution + SMT (z3): differential against an in-harness reference encoder and dirty-vs-fresh writer/buffer; native replay of models",
+  note=NOTE_COMMON+" Additional trusted base: the ~200-line reference encoder/decoder in harness/internal/writer/zz_C08_layout.go. Shapes as C01 (<=3 free nodes), payload lengths 252..254/65535/65536 (thorough more), stale buffer 64 bytes (thorough 0/3/64). Outside: larger trees; a frozen golden corpus is not used."),
 }
 na={p:"check not yet built (work in progress, see DESIGN.md)" for p in props}
 na["C15"]="not applicable to solver-based checking: the parser is a goyacc LALR table interpreter over text/scanner building a pointer-rich tree; with symbolic characters the scanner's rune loops dominate, with symbolic tokens the deciding step would be enumeration, and the oracle would need a second parser (DESIGN.md §4 C15)"
